@@ -90,29 +90,28 @@ Fixpoint check_steps (prev : kvdb) (ops obs : list jv) : list jv :=
       let name := as_str (jfield "op" o) in
       let armed := negb (is_null (jfield "fault" o)) || negb (is_null (jfield "kill" o)) in
       let interrupted := negb (all_committed b) in
+      let lab (k : string) (r : pystr) := JArr [jstr k; JStr r] in
+      let effect (e : wevent) :=
+          if is_replaceable_kind (w_kind e) || is_param_replaceable_kind (w_kind e) then lab "replace" (replace_report prev after e)
+          else if w_kind e =? 5 then lab "delete" (delete_report prev after e)
+          else lab "plain" (plain_report prev after e) in
       let reports :=
         if str_eqb name (pys "submit") then
           let raw := wevent_of_jv (jfield "event" o) in
           let e := ctor now raw in
           let out := as_str (jfield "out" b) in
-          [ack_report now out (as_bool (jfield "bcast" b)) (as_bool (jfield "valid" o)) armed prev after raw;
-           if armed && interrupted then unchanged_report prev after
-           else if str_eqb out (pys "true") && negb (is_ephemeral_kind (w_kind e)) then
-             (if is_replaceable_kind (w_kind e) || is_param_replaceable_kind (w_kind e) then replace_report prev after e
-              else if w_kind e =? 5 then delete_report prev after e
-              else plain_report prev after e)
-           else pys "ok"]
-        else if armed && interrupted then [unchanged_report prev after]
+          [lab "ack" (ack_report now out (as_bool (jfield "bcast" b)) (as_bool (jfield "valid" o)) armed prev after raw);
+           if armed && interrupted then lab "fault" (unchanged_report prev after)
+           else if str_eqb out (pys "true") && negb (is_ephemeral_kind (w_kind e)) then effect e
+           else lab "none" (pys "ok")]
+        else if armed && interrupted then [lab "fault" (unchanged_report prev after)]
         else if str_eqb name (pys "wadd") then
           let e := ctor now (wevent_of_jv (jfield "event" o)) in
-          [if interrupted then unchanged_report prev after
-           else if is_replaceable_kind (w_kind e) || is_param_replaceable_kind (w_kind e) then replace_report prev after e
-           else if w_kind e =? 5 then delete_report prev after e
-           else plain_report prev after e]
-        else if str_eqb name (pys "gc") then [gc_report now prev after]
-        else if str_eqb name (pys "del") then [del_report prev after (as_str (jfield "id" o))]
-        else [unchanged_report prev after] in
-      JArr (map JStr (coherent_report after :: reports)) :: check_steps after ro rb
+          [if interrupted then lab "fault" (unchanged_report prev after) else effect e]
+        else if str_eqb name (pys "gc") then [lab "gc" (gc_report now prev after)]
+        else if str_eqb name (pys "del") then [lab "del" (del_report prev after (as_str (jfield "id" o)))]
+        else [lab "unchanged" (unchanged_report prev after)] in
+      JArr (lab "coherence" (coherent_report after) :: reports) :: check_steps after ro rb
   | _, _ => []
   end.
 Definition run_check (v : jv) : jv :=
